@@ -50,7 +50,8 @@ def floors(tier):
     return {"evals": n * 4, "distinct": max(2, n // 4),
             "counters": {"model_calls_cse_on": n * 2, "model_calls_cse_off": n * 2,
                          "programs_with_angle_wrap_idioms": n // 8,
-                         "programs_with_proactive_simplify": n // 8}}
+                         "programs_with_proactive_simplify": n // 8,
+                         "state_from_data_non_float64_cases": n * 2}}
 
 
 def setup_worker(ctx):
@@ -142,6 +143,23 @@ def run_unit(unit, ctx):
             try:
                 st = m.State(**dict(skw))
                 ct = m.Control(**dict(ckw))
+                if pi in (2, 3):
+                    # the same named values handed over as a ready-made array (State.from_data keeps the
+                    # caller's array): an integer-typed lattice point (pi == 2) or a float32 array (pi == 3)
+                    import numpy as np
+
+                    lay = monitors.names_of(m.State)
+                    if pi == 2:
+                        for s_ in defn["state"]:
+                            pt[s_] = float(int(round(pt[s_])) if abs(pt[s_]) < 1e6 else 0)
+                        arr = np.array([[int(pt[n])] for n in lay], dtype=np.int64).reshape(len(lay), 1)
+                    else:
+                        arr = np.array([[pt[n]] for n in lay], dtype=np.float32).reshape(len(lay), 1)
+                        for i_, n in enumerate(lay):
+                            pt[n] = float(arr[i_, 0])
+                    env = orc.env(pt)
+                    st = m.State.from_data(arr)
+                    R.stats.inc("state_from_data_non_float64_cases")
                 if defn["control"] or pi % 2 == 0:
                     res = m.model(float(pt[defn["dt"]]), st, ct)
                 else:
